@@ -532,7 +532,24 @@ pub fn supervise<P: Prop>(
         .ok()
         .and_then(|s| s.parse().ok())
         .unwrap_or(1.0);
-    for mut lane in P::lanes(tier) {
+    let mut lanes = P::lanes(tier);
+    // thorough repeats the arithmetic-sensitive workloads on the plain release profile (what the
+    // Python wheel ships: no overflow checks, no debug assertions)
+    if tier == Tier::Thorough && ["C06", "C15", "C16", "C20"].contains(&P::ID) {
+        let extra: Vec<Lane> = lanes
+            .iter()
+            .filter(|l| l.name == "main")
+            .map(|l| {
+                let mut r = l.clone();
+                r.name = "main-release";
+                r.cases = (l.cases / 4).max(l.shards as u64);
+                r.floor = (l.floor / 8).max(2);
+                r
+            })
+            .collect();
+        lanes.extend(extra);
+    }
+    for mut lane in lanes {
         if let Some(l) = &only_lane {
             if l != lane.name {
                 continue;
